@@ -425,6 +425,36 @@ def r11_6(ctx):
                 ctx.bad("R11.6", fi.module, fi.qual, norm(seqs[0]), "the reset assigns the flag sets from something other than a fresh empty map", seqs[0].lineno)
 
 
+def r11_8(ctx):
+    """A pack renumbers every file of the folder and only afterwards commits the new keys.  A kill in between leaves the
+    database with keys that name other files, or none: the count is right, so "the folder has shrunk" does not fire, and every
+    UID is paired with another message (or cannot be fetched).  The recovery test therefore also asks whether every key the
+    mailbox *knows* is still in the folder - not only whether there are fewer files than before."""
+    p = ctx.p
+    fi = p.func("mbox.Mailbox.check_new_msgs_and_flags")
+    ctx.analysed(fi)
+    par = parmap(fi)
+    guards = []
+    for n in body_walk(fi.node):
+        if isinstance(n, ast.If) and any(isinstance(s_, ast.Assign) and norm(s_.targets[0]) == "self.uids" and isinstance(s_.value, ast.List) and not s_.value.elts for s_ in n.body):
+            guards.append(n)
+    ctx.require(guards, "check_new_msgs_and_flags: guard of the `treat as a new mailbox` reset not found")
+
+    def _knows(e) -> bool:
+        t = norm(e, 300)
+        return any(k in t for k in (
+            "set(self.msg_keys).issubset(msg_keys)", "set(self.msg_keys) <= set(msg_keys)", "set(self.msg_keys) - set(msg_keys)",
+            "set(msg_keys).issuperset(self.msg_keys)", "set(msg_keys) >= set(self.msg_keys)", "set(self.msg_keys).difference(msg_keys)",
+        )) or bool(re.search(r"all\(.* in .*msg_keys.* for .* in self\.msg_keys\)", t)) or bool(re.search(r"any\(.* not in .*msg_keys.* for .* in self\.msg_keys\)", t))
+
+    import re
+    hit = [g_ for g_ in guards if _knows(g_.test)]
+    if hit:
+        ctx.ok("R11.8", where(fi), "the recovery test asks whether every known message key is still in the folder (a kill between pack and commit is recognised)")
+    else:
+        ctx.bad("R11.8", fi.module, fi.qual, f"if {norm(guards[0].test, 70)}: <reset>", "the resync recognises a folder that no longer fits the database only by its size: after a kill between MH.pack() and the commit of the renumbered keys the count is unchanged, the stored keys name other files (or none), and every UID is handed to another message / cannot be fetched under an unchanged UIDVALIDITY", guards[0].lineno)
+
+
 def r11_7(ctx):
     """Rows that are found *through* another table are deleted before the rows they are found through: `DELETE FROM sequences
     WHERE mailbox_id IN (SELECT id FROM mailboxes WHERE name=?)` after `DELETE FROM mailboxes WHERE name=?` finds nothing, the
@@ -470,6 +500,7 @@ def run(ctx):
     ctx.do(r11_5)
     ctx.do(r11_6)
     ctx.do(r11_7)
+    ctx.do(r11_8)
     from . import c02
     ctx.do(c02.r2_1)
     ctx.do(c02.r2_4)
